@@ -40,6 +40,15 @@ impl RFsmExpressionDatamodel {
         }
     }
 
+    /// The value the item variable of a \<foreach\> is bound to: a (shallow) copy of the element.
+    /// Bound to the element itself, the variable would take over the read-only flag of an element
+    /// of a read-only collection (e.g. _event.data) and could not be bound to the next item, and
+    /// a later assignment to the variable (also the initialisation by the next \<foreach\>) would
+    /// overwrite the element of the collection.
+    fn for_each_item(element: &DataArc) -> DataArc {
+        create_data_arc(element.lock().unwrap().clone())
+    }
+
     fn compile(&mut self, source: &SourceCode) -> Result<Box<dyn Expression>, String> {
         if source.source_id == 0 {
             ExpressionParser::parse(source.source.clone())
@@ -613,7 +622,7 @@ impl Datamodel for RFsmExpressionDatamodel {
                             for (name, item_value) in map {
                                 #[cfg(feature = "Debug")]
                                 debug!("ForEach: #{} {} {}={}", idx, name, item_name, item_value);
-                                self.set_arc(item_name, item_value.clone(), true);
+                                self.set_arc(item_name, Self::for_each_item(&item_value), true);
                                 if !index.is_empty() {
                                     self.set(index, Data::Integer(idx), true);
                                 }
@@ -630,7 +639,7 @@ impl Datamodel for RFsmExpressionDatamodel {
                             for data in array {
                                 #[cfg(feature = "Debug")]
                                 debug!("ForEach: #{} {:?}", idx, data);
-                                self.set_arc(item_name, data.clone(), true);
+                                self.set_arc(item_name, Self::for_each_item(&data), true);
                                 if !index.is_empty() {
                                     self.set(index, Data::Integer(idx), true);
                                 }
